@@ -1220,9 +1220,229 @@ Proof.
   unfold linspace_int, Admissible. replace (S (S k') - 1)%nat with (S k') in * by lia.
   split; [|split].
   - cbn [seq map hd]. reflexivity.
-  - rewrite seq_S, map_app. cbn [map]. rewrite last_last. cbn [plus]. apply Nat.div_mul. lia.
+  - rewrite seq_S, map_app. cbn [map]. rewrite last_last. cbn [plus]. rewrite Nat.mul_comm. apply Nat.div_mul. lia.
   - apply ssorted_map_seq. intros i j Hij _. apply div_mono_strict; lia.
 Qed.
 Corollary unordered_edges_ok n mm : (1 <= n)%nat ->
   match unordered_edges n mm with Some e => Admissible n e | None => True end.
 Proof. intros Hn. unfold unordered_edges. destruct (_ && _); [now apply two_pass_edges_ok|exact I]. Qed.
+
+(* ================================================================== H. merge_coolers: refusal of incompatible inputs *)
+
+Lemma list_eqb_sound {A} (eqb : A -> A -> bool) : (forall x y, eqb x y = true -> x = y) ->
+  forall a b, list_eqb eqb a b = true -> a = b.
+Proof.
+  intros He. induction a as [|x a IH]; intros [|y b] H; cbn in H; try discriminate; [reflexivity|].
+  apply andb_true_iff in H. destruct H as (H1 & H2). f_equal; [now apply He|now apply IH].
+Qed.
+Lemma bin_eqb_sound x y : bin_eqb x y = true -> x = y.
+Proof. destruct x as [[a b] c], y as [[a' b'] c']. unfold bin_eqb, bchrom, bstart, bend. cbn [fst snd]. intro H. repeat f_equal; lia. Qed.
+Lemma pair_eqb_sound (x y : Z * Z) : pair_eqb x y = true -> x = y.
+Proof. destruct x, y. unfold pair_eqb. cbn [fst snd]. intro H. f_equal; lia. Qed.
+Lemma opt_eqb_sound a b : opt_eqb a b = true -> a = b.
+Proof. destruct a, b; cbn; intro H; try discriminate; [f_equal; lia|reflexivity]. Qed.
+Lemma map_snd_combine {A B} (l : list A) (r : list B) : length l = length r -> map snd (combine l r) = r.
+Proof. revert r. induction l as [|x l IH]; intros [|y r] H; cbn in *; try discriminate; [reflexivity|]. f_equal. apply IH. lia. Qed.
+
+(** what CoolerMerger.__init__ accepts really has the same axes: same chromosome names and the same bin
+    table.  For the fixed-bin-size branch (which compares only bin size, names and chromosome lengths) this
+    uses C20: a valid table that reports bin size b is determined by its chromosome lengths. *)
+Theorem compatible_same_axes c0 c blocks0 blocks :
+  c_bins c0 = concat blocks0 -> c_bins c = concat blocks -> ValidBlocks blocks0 -> ValidBlocks blocks ->
+  compatible c0 c = true -> c_bins c = c_bins c0 /\ c_names c = c_names c0.
+Proof.
+  intros E0 E V0 V1 H. unfold compatible in H. destruct (get_binsize (c_bins c0)) as [b|] eqn:Eb.
+  - apply andb_true_iff in H. destruct H as (H & H3). apply andb_true_iff in H. destruct H as (H1 & H2).
+    apply opt_eqb_sound in H1. apply (list_eqb_sound Z.eqb) in H2; [|intros x y Hxy; lia].
+    apply (list_eqb_sound pair_eqb pair_eqb_sound) in H3. split; [|exact H2].
+    rewrite E0, E in *. rewrite !chromsizes_spec in H3 by assumption.
+    assert (HL : length blocks = length blocks0).
+    { apply (f_equal (@length _)) in H3. rewrite !combine_length, !zrange_length, !map_length in H3. lia. }
+    apply (f_equal (map snd)) in H3. rewrite !map_snd_combine in H3 by (now rewrite zrange_length, map_length).
+    f_equal. apply (fixed_table_determined blocks blocks0 b); auto.
+  - apply andb_true_iff in H. destruct H as (H1 & H2).
+    apply (list_eqb_sound Z.eqb) in H1; [|intros x y Hxy; lia].
+    apply (list_eqb_sound bin_eqb bin_eqb_sound) in H2. split; assumption.
+Qed.
+
+Lemma forallb_same_symm (inputs : list cooler) c0 : In c0 inputs ->
+  forallb c_symm inputs || forallb (fun c => negb (c_symm c)) inputs = true ->
+  Forall (fun c => c_symm c = c_symm c0) inputs.
+Proof.
+  intros Hin H. apply orb_true_iff in H. rewrite !forallb_forall in H. apply Forall_forall. intros c Hc.
+  destruct H as [H|H]; pose proof (H c Hc) as A; pose proof (H c0 Hin) as B.
+  - congruence.
+  - destruct (c_symm c), (c_symm c0); cbn in *; congruence.
+Qed.
+
+(** C07 theorem 4: whenever merge_coolers produces an output, every input has the storage mode of the first
+    and passed the compatibility test against the first; the output carries the first input's axes *)
+Theorem refuse_incompatible inputs buf columns dtypes aggs c :
+  merge_coolers inputs buf columns dtypes aggs = Ok c ->
+  exists c0 rest, inputs = c0 :: rest /\
+    Forall (fun ci => c_symm ci = c_symm c0 /\ compatible c0 ci = true) inputs /\
+    c_bins c = c_bins c0 /\ c_names c = c_names c0 /\ c_symm c = c_symm c0.
+Proof.
+  unfold merge_coolers. destruct inputs as [|c0 rest]; [discriminate|]. set (inputs := c0 :: rest).
+  destruct (negb _) eqn:Es; [discriminate|]. apply negb_false_iff in Es.
+  destruct (all_some (map (fun c1 => all_some (map (col_pos (c_cols c1)) _)) inputs)) as [poss|]; [|discriminate].
+  destruct (all_some (map (fun c1 => all_some (map (col_bits (c_cols c1)) _)) inputs)) as [bitss|]; [|discriminate].
+  destruct (negb (forallb (compatible c0) inputs)) eqn:Ec; [discriminate|]. apply negb_false_iff in Ec.
+  destruct (merge_g _ _ _ _ _ _) as [m|e]; cbn [bind]; [|discriminate].
+  intro H. inversion H; subst c. cbn [c_bins c_names c_symm]. exists c0, rest. split; [reflexivity|].
+  split; [|repeat split].
+  pose proof (forallb_same_symm inputs c0 (or_introl eq_refl) Es) as HS.
+  rewrite forallb_forall in Ec. rewrite Forall_forall in *. intros ci Hci. split; [apply HS; exact Hci|apply Ec; exact Hci].
+Qed.
+
+Corollary merged_inputs_share_axes inputs buf columns dtypes aggs c :
+  merge_coolers inputs buf columns dtypes aggs = Ok c ->
+  Forall (fun ci => exists blocks, c_bins ci = concat blocks /\ ValidBlocks blocks) inputs ->
+  Forall (fun ci => c_bins ci = c_bins c /\ c_names ci = c_names c /\ c_symm ci = c_symm c) inputs.
+Proof.
+  intros H HV. destruct (refuse_incompatible _ _ _ _ _ _ H) as (c0 & rest & -> & HF & Eb & En & Es).
+  rewrite Forall_forall in *. intros ci Hci. destruct (HF ci Hci) as (S1 & C1).
+  destruct (HV ci Hci) as (bl & E1 & V1). destruct (HV c0 (or_introl eq_refl)) as (bl0 & E0 & V0).
+  destruct (compatible_same_axes c0 ci bl0 bl E0 E1 V0 V1 C1) as (A & B). rewrite Eb, En, Es. auto.
+Qed.
+
+(* ================================================================== I. dtype range: stored = aggregate, or error *)
+Section Checked.
+Context {V : Type}.
+Notation recd := (key * V)%type.
+
+Lemma create_g_checked n o vcheck (chunks : list (list recd)) m :
+  create_g n o vcheck chunks = Ok m -> Forall (fun p => vcheck (snd p) = true) (mc_px m).
+Proof.
+  intro H. apply create_g_ok in H. destruct H as (cs & F & ->). cbn [mc_px mk_cool]. apply Forall_concat.
+  induction F as [|ch ch' t t' Hc _ IH]; constructor; [|exact IH].
+  unfold check_chunk in Hc. destruct (validate_pixels _ _ _ _ _ ch) as [c|e]; cbn [bind] in Hc; [|discriminate].
+  destruct (forallb _ c) eqn:Ef; inversion Hc; subst. rewrite forallb_forall in Ef. apply Forall_forall. exact Ef.
+Qed.
+
+(** a merge pass either fails or stores, for every pixel, exactly the aggregate of that pixel's input values,
+    and every stored value passed the range check of the output dtype *)
+Theorem merge_pass_checked n o vcheck agg (inputs : list (mcool V)) buf :
+  (1 <= n)%nat -> 0 <= buf -> Forall (ValidIn n) inputs ->
+  match merge_g n o vcheck agg inputs buf with
+  | Err _ => True
+  | Ok m => mc_px m = groupby_agg agg (allpx inputs) /\
+            forall k v, In (k, v) (mc_px m) -> v = agg (vals (allpx inputs) k) /\ vcheck v = true
+  end.
+Proof.
+  intros Hn Hb HV. destruct (merge_g n o vcheck agg inputs buf) as [m|e] eqn:E; [|exact I].
+  pose proof E as E'. apply merge_g_exact in E; auto. destruct E as (Hne & ->). cbn [mc_px mk_cool]. split; [reflexivity|].
+  intros k v Hin. split; [now apply groupby_agg_value in Hin|].
+  destruct inputs as [|c0 t]; [contradiction|]. cbn [merge_g] in E'.
+  destruct (cooler_merger agg (c0 :: t) buf) as [eps|e]; cbn [bind] in E'; [|discriminate].
+  apply create_g_checked in E'. cbn [mc_px mk_cool] in E'. rewrite Forall_forall in E'. apply (E' (k, v) Hin).
+Qed.
+End Checked.
+
+Lemma wrap64_id x : - 2 ^ 63 <= x < 2 ^ 63 -> wrap64 x = x.
+Proof. intros H. unfold wrap64. rewrite Z.mod_small; lia. Qed.
+Lemma wrap64_range x : - 2 ^ 63 <= wrap64 x < 2 ^ 63.
+Proof. unfold wrap64. pose proof (Z.mod_pos_bound (x + 2 ^ 63) (2 ^ 64) ltac:(lia)). lia. Qed.
+(** the integer sum is exact as long as the exact sum fits int64 (pandas accumulates in int64) *)
+Lemma agg_col_sum_exact vs : - 2 ^ 63 <= sumZ vs < 2 ^ 63 -> agg_col ASum vs = sumZ vs.
+Proof. apply wrap64_id. Qed.
+Lemma fits_spec bits v : fits bits v = true <-> - 2 ^ (bits - 1) <= v <= 2 ^ (bits - 1) - 1.
+Proof. unfold fits. lia. Qed.
+
+(* ---- merge_coolers in terms of one checked merge pass *)
+Definition mc_columns (columns : option (list Z)) : list Z := match columns with Some l => l | None => [0] end.
+Definition mc_ops (columns : option (list Z)) (aggs : list (Z * aggop)) : list aggop :=
+  map (fun col => match lookup aggs col with Some op => op | None => ASum end) (mc_columns columns).
+Definition as_mcool (c : cooler) : mcool (list Z) := {| mc_off := c_off c; mc_px := c_px c |}.
+
+Theorem merge_coolers_unfold inputs buf columns dtypes aggs c :
+  merge_coolers inputs buf columns dtypes aggs = Ok c ->
+  exists c0 rest poss out_bits m,
+    inputs = c0 :: rest /\
+    all_some (map (fun ci => all_some (map (col_pos (c_cols ci)) (mc_columns columns))) inputs) = Some poss /\
+    length out_bits = length (mc_columns columns) /\
+    merge_g (c_nbins c0) {| o_bounds := true; o_triu := c_symm c0; o_dup := true; o_sort := false |}
+            (fits_row out_bits) (agg_row (mc_ops columns aggs))
+            (map (fun cp => project (fst cp) (snd cp)) (combine inputs poss)) buf = Ok m /\
+    c_px c = mc_px m /\ c_off c = mc_off m /\ c_cols c = combine (mc_columns columns) out_bits /\
+    c_sum c = sum_count (mc_columns columns) (mc_px m).
+Proof.
+  unfold merge_coolers. destruct inputs as [|c0 rest]; [discriminate|]. set (inputs := c0 :: rest).
+  destruct (negb _) eqn:Es; [discriminate|]. fold (mc_columns columns).
+  destruct (all_some (map (fun c1 => all_some (map (col_pos (c_cols c1)) _)) inputs)) as [poss|] eqn:Ep; [|discriminate].
+  destruct (all_some (map (fun c1 => all_some (map (col_bits (c_cols c1)) _)) inputs)) as [bitss|]; [|discriminate].
+  destruct (negb (forallb (compatible c0) inputs)) eqn:Ec; [discriminate|].
+  match goal with |- context [merge_g _ _ (fits_row ?ob) _ _ _] => set (out_bits := ob) end.
+  fold (mc_ops columns aggs).
+  destruct (merge_g _ _ _ _ _ _) as [m|e] eqn:Em; cbn [bind]; [|discriminate].
+  intro H. inversion H; subst c. cbn [c_px c_off c_cols c_sum].
+  exists c0, rest, poss, out_bits, m. repeat split; try reflexivity; try assumption.
+  subst out_bits. now rewrite map_length, combine_length, seq_length, Nat.min_id.
+Qed.
+
+Lemma filter_rows_map {A B} (f : A -> B) (l : list (key * A)) b :
+  length (filter (fun p => fst (fst p) <? b) (map (fun p => (fst p, f (snd p))) l))
+  = length (filter (fun p => fst (fst p) <? b) l).
+Proof.
+  induction l as [|[[i j] v] t IH]; [reflexivity|]. simpl. destruct (i <? b); simpl; rewrite IH; reflexivity.
+Qed.
+Lemma project_valid n (c : cooler) poss : ValidIn n (as_mcool c) -> ValidIn n (project c poss).
+Proof.
+  intros [Ho Hs Hr]. cbn [as_mcool mc_off mc_px] in *. unfold project. constructor; cbn [mc_off mc_px].
+  - rewrite Ho. unfold index_of. apply map_ext. intro b. unfold zlen. f_equal. symmetry. apply (filter_rows_map (fun r : list Z => map (fun i => nth i r 0) poss)).
+  - unfold RowSorted in *. rewrite map_map. exact Hs.
+  - rewrite Forall_map. exact Hr.
+Qed.
+
+Lemma agg_row_nth ops rows j op : nth_error ops j = Some op ->
+  nth j (agg_row ops rows) 0 = agg_col op (map (fun r => nth j r 0) rows).
+Proof.
+  intro H. unfold agg_row. apply nth_error_nth.
+  assert (Hc : nth_error (combine (seq 0 (length ops)) ops) j = Some (j, op)).
+  { assert (Hj : (j < length ops)%nat) by (apply nth_error_Some; congruence).
+    replace (j, op) with ((0 + j)%nat, op) by reflexivity.
+    clear -H Hj. revert j H Hj. generalize O. induction ops as [|a ops IH]; intros s j H Hj; [cbn in Hj; lia|].
+    destruct j as [|j]; cbn [length seq combine nth_error] in *.
+    - inversion H. now rewrite Nat.add_0_r.
+    - rewrite (IH (S s) j H ltac:(lia)). do 2 f_equal. lia. }
+  rewrite (map_nth_error _ _ _ Hc). reflexivity.
+Qed.
+
+(** C07 theorem 5 (guarded form): merge_coolers either fails or stores, for every pixel, the row of per-column
+    aggregates of that pixel's values over the inputs (in the model's machine arithmetic: sums accumulate in
+    int64), and every stored value lies in the range of its output dtype.  With [agg_col_sum_exact]: a stored
+    sum equals the exact integer sum whenever the exact sum fits int64. *)
+Theorem no_silent_overflow inputs buf columns dtypes aggs :
+  0 <= buf -> (1 <= c_nbins (hd {| c_names := []; c_bins := []; c_symm := true; c_cols := []; c_off := []; c_px := []; c_sum := 0 |} inputs))%nat ->
+  Forall (fun ci => ValidIn (c_nbins (hd ci inputs)) (as_mcool ci)) inputs ->
+  match merge_coolers inputs buf columns dtypes aggs with
+  | Err _ => True
+  | Ok c => exists projected,
+      Forall2 (fun ci pi => map fst (mc_px pi) = map fst (c_px ci) /\ mc_off pi = c_off ci) inputs projected /\
+      c_px c = groupby_agg (agg_row (mc_ops columns aggs)) (allpx projected) /\
+      forall k row, In (k, row) (c_px c) ->
+        row = agg_row (mc_ops columns aggs) (vals (allpx projected) k) /\
+        fits_row (map snd (c_cols c)) row = true
+  end.
+Proof.
+  intros Hb Hn HV. destruct (merge_coolers inputs buf columns dtypes aggs) as [c|e] eqn:E; [|exact I].
+  apply merge_coolers_unfold in E. destruct E as (c0 & rest & poss & ob & m & -> & Ep & Hl & Em & E1 & E2 & E3 & E4).
+  cbn [hd] in *. set (inputs := c0 :: rest) in *.
+  set (projected := map (fun cp => project (fst cp) (snd cp)) (combine inputs poss)) in *.
+  assert (Lp : length poss = length inputs).
+  { clear -Ep. revert poss Ep. induction inputs as [|a t IH]; intros poss Ep; cbn in Ep.
+    - inversion Ep. reflexivity.
+    - destruct (all_some (map (col_pos (c_cols a)) _)); [|discriminate]. destruct (all_some _) as [r|] eqn:Er; [|discriminate].
+      cbn in Ep. inversion Ep. cbn [length]. f_equal. symmetry. now apply IH. }
+  assert (PV : Forall (ValidIn (c_nbins c0)) projected).
+  { subst projected. rewrite Forall_map. apply Forall_forall. intros [ci ps] Hin. cbn [fst snd].
+    apply project_valid. apply in_combine_l in Hin. rewrite Forall_forall in HV. apply (HV ci Hin). }
+  pose proof (merge_pass_checked (c_nbins c0) _ (fits_row ob) (agg_row (mc_ops columns aggs)) projected buf Hn Hb PV) as MP.
+  rewrite Em in MP. destruct MP as (MP1 & MP2). exists projected. split; [|split].
+  - subst projected. clear -Lp. revert poss Lp. induction inputs as [|a t IH]; intros [|p ps] Lp; cbn in Lp; try discriminate; cbn [combine map]; constructor.
+    + unfold project. cbn [mc_px mc_off fst snd]. rewrite map_map. cbn [fst]. split; reflexivity.
+    + apply IH. lia.
+  - now rewrite E1.
+  - intros k row Hin. rewrite E1 in Hin. destruct (MP2 k row Hin) as (A & B). split; [exact A|].
+    rewrite E3, map_snd_combine by (symmetry; exact Hl). exact B.
+Qed.
